@@ -221,6 +221,10 @@ def run(ctx):
             shards.append((acc, lens[i:i + step], ctx.seed))
         for b in big:
             shards.append((acc, [b], ctx.seed))
+        if ctx.tier == "quick" and acc in ACCS[:2]:
+            # the 24-bit length field: the last stream that fits and the first that does not (two accelerators in the quick tier)
+            for b in ((1 << 24) - 1, 1 << 24):
+                shards.append((acc, [b], ctx.seed))
     evals = 0
     distinct = set()
     for n_ok, bad in pmap(_shard, shards):
